@@ -839,7 +839,8 @@ Qed.
 
 (* ---------------------------------------------------------------- esds *)
 (* under the guard (size fields in the encoder's form, no UnknownData) the captured size fields ARE the encoder's,
-   so the re-encoding is the input, and the decoder did not look behind it (esds_core) *)
+   so the re-encoding is the input; the decoder reads the payload of the box only (repo commit 27ea537), and the header
+   that fits the leaf announces exactly the re-encoded body (esds_core) *)
 Lemma stable_esds : leaf_stable dec_esds.
 Proof.
   intros h r l rsv r' Hok Hnm H G Hf _.
@@ -847,7 +848,8 @@ Proof.
   pose proof (esds_is _ _ _ _ _ H) as Hl.
   assert (Hsg : leaf_size_guard l = true) by (destruct l; try contradiction; reflexivity).
   subst rsv. exists b. split; [exact Hb|]. split; [rewrite Hr; rewrite lenN_app; reflexivity|].
-  split; [now apply body_size|]. exact Hrep.
+  pose proof (body_size _ _ Hb Hsg) as Hbs. split; [exact Hbs|].
+  intros r2. apply Hrep. destruct Hf as (Hsz & Hlen & _). unfold payload_len. lia.
 Qed.
 
 (* ---------------------------------------------------------------- uuid *)
